@@ -19,7 +19,8 @@ struct OpBase {
 // Spec requirements:
 //   typename Spec::Op   (derives from OpBase or has tid/inv/resp)
 //   typename Spec::State (copyable)
-//   bool Spec::apply(State&, const Op&) const     -- may the operation take effect now with its recorded result?
+//   int  Spec::alternatives(const Op&) const      -- number of alternative effects (normally 1)
+//   bool Spec::apply(State&, const Op&, int alt) const -- may the operation take effect now with its recorded result?
 //   uint64_t Spec::hash(const State&) const
 template <class Spec>
 struct Checker {
@@ -55,15 +56,18 @@ struct Checker {
     for (size_t i = 0; i < n; ++i) {
       if (done & (1ull << i)) continue;
       if (pred[i] & ~done) continue;
-      State s2 = st;
-      if (!spec.apply(s2, ops[i])) continue;
-      order.push_back((int)i);
-      if ((int)order.size() > deepest) {
-        deepest = (int)order.size();
-        deepest_order = order;
+      // an operation whose effect cannot be told from its result may offer several alternatives
+      for (int alt = 0, nalt = spec.alternatives(ops[i]); alt < nalt; ++alt) {
+        State s2 = st;
+        if (!spec.apply(s2, ops[i], alt)) continue;
+        order.push_back((int)i);
+        if ((int)order.size() > deepest) {
+          deepest = (int)order.size();
+          deepest_order = order;
+        }
+        if (search(done | (1ull << i), s2)) return true;
+        order.pop_back();
       }
-      if (search(done | (1ull << i), s2)) return true;
-      order.pop_back();
     }
     memo.insert(key);
     return false;
